@@ -22,7 +22,8 @@ KEYS = ["a", "b", "a/b", "a/a", "b/a"]
 PATS = ["a", "b", "a/b", "a/a", "r:.*", "a/r:.*", "r:.*/r:.*", "r:[^a]", "r:.*/a", "c"]
 ASSUMPTIONS = [
     "A2/A3 of vsched (see C01); callbacks do not call back into the router (the property's own restriction)",
-    "the lock itself is covered by C01-C03/C12; here any locking scheme that makes operations atomic is accepted",
+    "the lock itself is covered by C01-C03/C12; here any locking scheme that makes operations atomic is accepted; the one lock-level execution "
+    "repeated here is the busy period of more than 2^16 queued requests, which router programs cannot produce",
     "programs: up to 3 pre-subscribed observers, 2-4 threads, <= 3 operations each, keys of depth <= 2; schedules are sampled, not exhausted",
     "a further batch runs on the access-instrumented build with 0.5-3.3 % of the plain memory accesses turned into scheduling points (torn executions)",
     "some notify/exists/depth calls are issued from inside a callback of a second router (the caller then holds that router's read lock); the second router is never written",
@@ -209,6 +210,20 @@ def check(pid, tier, seed):
         nx = info.get("next") or {}
         verdict.violation("concrouter@%s(op=%s,id=%s)" % (nx.get("e"), nx.get("op"), nx.get("id")), {"matched": info["matched"], "next": nx},
                           {"component": "concrouter", "xid": x, "cfg": cfgs[x], "events": info["events"]})
+    # the lock under the router: one uninterrupted busy period of more than 2^16 queued requests (components/lock.py). Router
+    # programs cannot keep the lock busy that long (every subscription stays in the model), and the router's atomicity is
+    # exactly the exclusion of this Resource (src/threading/rwp/Resource.cpp is among C11's anchors)
+    from components import lock as _lock
+    bs, bcf = _lock.busy_scripts(seed, tier)
+    lexe, _proj = _lock.harness()
+    bres = common.run_harness(lexe, bs)
+    bexecs = {x: _lock.p_events(bres.get(x, [])) for x in bcf}
+    bacc, brej, btst = tracecheck.validate(_lock.SPEC, "RWLockTrace.tla", "RWLockTrace_hold.cfg", bexecs)
+    log("[%s] lock busy periods: %d executions, %d rejected, TLC %.1fs" % (pid, len(bexecs), len(brej), btst["tlc_wall_s"]))
+    for x, info in brej.items():
+        nx = info.get("next") or {}
+        verdict.violation("concrouter[lock busy period]@%s(t=%s,k=%s)" % (nx.get("e"), nx.get("t"), nx.get("k")), {"matched": info["matched"], "next": nx},
+                          {"component": "lock", "xid": x, "cfg": bcf[x], "events": info["events"][-60:]})
     # one-shot observers (see oneshot_programs): only crashes / sanitizer reports are judged here
     import re as _re
     os_script, os_cfgs = oneshot_programs(seed, {"quick": 120, "thorough": 3000}[tier])
@@ -240,7 +255,8 @@ def check(pid, tier, seed):
            "rule": "random programs (0-3 pre-subscribed observers, 2-4 threads, 1-3 operations each out of notify/subscribe/unsubscribe/shrink/exists/depth) under "
                    "seeded random/PCT schedules; distinct = distinct event sequences; executions_with_concurrent_deliveries counts those where two threads were "
                    "inside callbacks at once",
-           "executions_with_concurrent_deliveries": overlapping, "model_checks": mcs, "trace_validation": [tst]}
+           "executions_with_concurrent_deliveries": overlapping, "model_checks": mcs, "trace_validation": [tst, btst],
+           "lock_busy_periods": {"executions": len(bexecs), "events": sum(len(e) for e in bexecs.values())}}
     rc = verdict.finish()
     common.write_evidence(pid, tier, seed, "model_checking", cov, ASSUMPTIONS, time.time() - t0, len(verdict.violations))
     return rc
